@@ -58,8 +58,12 @@ Definition get4 {A} (d : A) (x : vec4 A) (a c i j : nat) : A :=
   nth j (nth i (nth c (nth a x []) []) []) d.
 
 (* row-major un-flattening by position *)
-Definition unflat2 {A} (r c : nat) (v : list A) : vec2 A :=
-  build1 r (fun i => firstn c (skipn (i * c) v)).
+(* row i is firstn c (skipn (i * c) v) (Theory/Shapes.v [unflat2_spec]); computed by one pass over v *)
+Fixpoint unflat2 {A} (r c : nat) (v : list A) : vec2 A :=
+  match r with
+  | O => []
+  | S k => firstn c v :: unflat2 k c (skipn c v)
+  end.
 Definition unflat3 {A} (c h w : nat) (v : list A) : vec3 A :=
   build1 c (fun k => unflat2 h w (skipn (k * (h * w)) v)).
 
